@@ -59,7 +59,8 @@ type hframe struct {
 var legalNames = []string{"a", "b", "c", "d", "e", "k", "x y", "Ω", "colcol-temp-0", "const-temp-0", "unary-temp-0", "A"}
 var illegalNames = []string{"", "$a", "'q'", "\"qq\""}
 
-var strAlphabet = []string{"", "a", "b", "ab", "B", "abc", "b,c", "q\"t", "x\ny", " lead", "é", "ı", "\x00", "\xff\xfe", "zz", "A"}
+var strAlphabet = []string{"", "a", "b", "ab", "B", "abc", "b,c", "q\"t", "x\ny", " lead", "é", "ı", "\x00", "\xff\xfe", "zz", "A",
+	"a\ufffdb", "\u2028", "l\u2029", "t\tb", "back\\slash", "\x7f", "<&>", "\x1f", "日本", "\xe2\x82"}
 var intAlphabet = []int{0, 1, -1, 2, 3, 7, 100, -100, math.MaxInt64, math.MinInt64}
 var floatBits = []uint64{
 	0x0000000000000000, 0x8000000000000000, 0x3ff0000000000000, 0xbff0000000000000, 0x4000000000000000,
